@@ -68,10 +68,32 @@ func init() {
 			if tier == "thorough" {
 				add(qast.TreeUnits("tree|full|2|fold", len(treeSet("full1")), 60), 4)
 			}
-			add([]string{"groups"}, 2)
+			add([]string{"groups", "args"}, 2)
 			return us
 		},
 		Run: func(w *core.Worker, tier, unit string) {
+			if unit == "args" {
+				// every spelling of the numeric argument (the defaults 1 / 1.0 written out included):
+				// a query with ~ or ^ is refused whatever the number says
+				var forms []qast.UForm
+				for _, a := range []string{"", "1", "1.0", "1.00", "0", "0.0", "2", "1.25", "10"} {
+					forms = append(forms, qast.UForm{Op: qast.OBoost, Arg: a})
+				}
+				for _, a := range []string{"", "0", "1", "2", "10"} {
+					forms = append(forms, qast.UForm{Op: qast.OFuzzy, Arg: a})
+				}
+				forms = append(forms, qast.UForm{Op: qast.ONot}, qast.UForm{Op: qast.OMust})
+				for _, t := range qast.AllTreesU(qast.LeavesSmall(3), forms, 2) {
+					ops := nodeOps(t)
+					if !ops["FUZZY"] && !ops["BOOST"] {
+						continue
+					}
+					txt := qast.Text(t, nil)
+					w.Do(core.Case{Kind: "fold", In: core.BStr(txt), In2: "unsupported"})
+					w.Do(core.Case{Kind: "fold", In: core.BStr(txt), In2: "unsupported", DF: "D"})
+				}
+				return
+			}
 			if unit == "groups" {
 				// ~ and ^ anywhere inside a field's value group (where the parser may turn the group
 				// into a value list or push the field inwards): the renderers must still refuse
